@@ -62,7 +62,7 @@ def check_color(code):
     if tuple(rgb) != exp:
         raise Violation("hex2rgb", "%r -> %r, expected %r" % (code, rgb, exp))
     s = lib_call(utils.hex2rgbstr, code)
-    m = re.fullmatch(r"rgb\((\d+), (\d+), (\d+)\)", s)
+    m = re.fullmatch(r"rgb\(\s*(\d+)\s*,\s*(\d+)\s*,\s*(\d+)\s*\)", s)
     if not m or tuple(int(x) for x in m.groups()) != exp:
         raise Violation("hex2rgbstr", "%r -> %r, expected rgb%r" % (code, s, exp))
     h = lib_call(utils.hex2html, code)
